@@ -60,6 +60,7 @@ def ssh_case(**kw):
 
 def ssh_model_call(c):
     kh = [[SEL[s], KEYCODE[k][0], KEYCODE[k][1]] for s, k in (c['kh'] or [])] if c['verify'] else []
+    if c.get('host_none'): kh = []          # outbound-ssh style connect(host=None, sock=...): no known_hosts entry can name the peer
     pin = [] if not c['pin'] else ([0] if c['pin'] == 'bad' else list(KEYCODE[c['pin']]))
     loads = [load_ok(n, c['password']) for n in c['key_files']]
     if c['look_for_keys']: loads += [load_ok(p, c['password']) for p in c['default_keys']]
@@ -193,6 +194,9 @@ def ssh_cases(ctx):
             if k not in seen:
                 seen.add(k); yield c
         bases = [dict(verify=False), dict(verify=True, kh=[('host', 'E1')])]
+        # connect(host=None, sock=...) (call-home / outbound ssh): only a pinned key or the callback can accept the peer
+        for pin, (ucb, cbv), kh in itertools.product(PINS, CALLBACKS[:4], [None, [('host', 'E1')]]):
+            yield ssh_case(verify=True, kh=kh, pin=pin, user_cb=ucb, cb_verdict=cbv, host_none=True)
     else:
         yield from hostkey_grid(profs)
         bases = [dict(verify=False), dict(verify=True, kh=[('host', 'E1')]), dict(verify=True, pin='E1'),
